@@ -14,6 +14,11 @@
 
 using verif::Case;
 
+// Defaults for this binary only (ASAN_OPTIONS from the driver still wins for the options it names): with the stock 256 MB
+// quarantine and 30-frame allocation stacks a rapidcheck process grows by ~4 KB per case (0.9 GB after 200k cases, measured);
+// with these it stays near 50 MB and runs twice as fast.  Error reports keep their full stack.
+extern "C" const char *__asan_default_options() { return "quarantine_size_mb=16:malloc_context_size=3"; }
+
 const verif::Info verif_info = {
     "C13", 96,
     "render direction: doubles and floats from a directed table (+-0, +-inf, quiet/signalling/negative NaN, min/max normal and subnormal, 10^k for every "
@@ -126,14 +131,14 @@ template <class F> std::string check_render_t(const RenderCase &rc, F v, RenderF
             const std::string wl = ref::c_printf_double(dv, L, false, -1);
             ST::string a;
             const char *fn;
-            if constexpr (std::is_same<F, float>::value) { a = ST::string::from_float(v, L); fn = "from_float(float"; }
-            else { a = ST::string::from_double(v, L); fn = "from_double(double"; }
+            if constexpr (std::is_same<F, float>::value) { a = ST::string::from_float(v, L); fn = "from_float("; }
+            else { a = ST::string::from_double(v, L); fn = "from_double("; }
             if (str_of(a) != wl)
-                return std::string(fn) + " " + value_text(rc) + ", '" + L + "') gives " + verif::quoted(str_of(a), 120) + ", printf %" + L + " gives " + verif::quoted(wl, 120);
+                return std::string(fn) + value_text(rc) + ", '" + L + "') gives " + verif::quoted(str_of(a), 120) + ", printf %" + L + " gives " + verif::quoted(wl, 120);
             if constexpr (std::is_same<F, double>::value) {
                 ST::string b = ST::string::from_float(v, L);    // the from_float(double) overload
                 if (str_of(b) != wl)
-                    return std::string("from_float(double ") + value_text(rc) + ", '" + L + "') gives " + verif::quoted(str_of(b), 120) + ", printf %" + L + " gives " + verif::quoted(wl, 120);
+                    return std::string("from_float(") + value_text(rc) + ", '" + L + "') gives " + verif::quoted(str_of(b), 120) + ", printf %" + L + " gives " + verif::quoted(wl, 120);
             }
             const std::string wg = ref::c_printf_double(dv, 'g', false, -1);
             if (L == 'g') {      // default argument
